@@ -90,8 +90,19 @@ def handleStr (toks : List String) : String :=
     | _, _, _, _ => "bad-op"
   | _ => "bad-op"
 
+/-- channel Q: a sequence of D / E / P operations on shared objects, results rendered after the
+last one (harness/impl/seq.go). Padders, encoders and prefixers are functions in the model, so
+every sub-line is evaluated on its own. -/
+def handleSeq (subs : String) : String :=
+  let rs := (subs.splitOn "|").map fun sub =>
+    match sub.splitOn "," with
+    | c :: rest => if c = "E" ∨ c = "P" ∨ c = "D" then handleStr (c :: rest) else "bad-op"
+    | [] => "bad-op"
+  if rs.contains "bad-op" then "bad-op" else " | ".intercalate rs
+
 def handle (toks : List String) : Option String :=
   match toks with
+  | ["Q", subs] => some (handleSeq subs)
   | c :: _ => if c = "E" ∨ c = "P" ∨ c = "D" ∨ c = "B" then some (handleStr toks) else none
   | [] => none
 
